@@ -51,6 +51,19 @@ void gen_sched(sim::Rng& rng, Json& plan, sim::u64 horizon, bool allow_stalls)
         s["stall_max_us"] = static_cast<int>(1000 + rng.below(50000));
     }
     if (allow_stalls && rng.chance(0.3)) {
+        s["pause_ppm"] = static_cast<int>(200 + rng.below(4000));
+        s["pause_max_us"] = static_cast<int>(100 + rng.below(rng.chance(0.5) ? 2000 : 30000));
+    }
+    if (allow_stalls && rng.chance(0.3)) {
+        // a random subset of sites (by hash bucket of the site name) at which threads are descheduled often in this run
+        unsigned mask = 1u << rng.below(16);
+        if (rng.chance(0.5)) mask |= 1u << rng.below(16);
+        s["hot_buckets"] = static_cast<int>(mask);
+        s["hot_pause_permille"] = static_cast<int>(30 + rng.below(500));
+        if (!s.has("pause_max_us")) s["pause_max_us"] = static_cast<int>(100 + rng.below(rng.chance(0.5) ? 2000 : 30000));
+        s["max_pauses"] = static_cast<int>(4 + rng.below(60));
+    }
+    if (allow_stalls && rng.chance(0.3)) {
         s["start_delay_permille"] = static_cast<int>(200 + rng.below(700));
         s["start_delay_max_us"] = static_cast<int>(50 + rng.below(3000));
     }
@@ -69,6 +82,12 @@ sim::Config sched_from_plan(const Json& plan)
     c.sticky_p = static_cast<double>(s.num("keep_permille", 800)) / 1000.0;
     c.stall_p = static_cast<double>(s.num("stall_ppm", 0)) / 1e6;
     c.stall_max_ns = s.num("stall_max_us", 50000) * 1000;
+    c.pause_p = static_cast<double>(s.num("pause_ppm", 0)) / 1e6;
+    c.pause_max_ns = s.num("pause_max_us", 5000) * 1000;
+    c.hot_buckets = static_cast<unsigned>(s.num("hot_buckets", 0)) & 0xffffu;
+    for (size_t i = 0; i < s.get("hot_sites").size(); ++i) c.hot_sites.push_back(s.get("hot_sites").at(i).as_str());
+    c.hot_pause_p = static_cast<double>(s.num("hot_pause_permille", 0)) / 1000.0;
+    c.max_pauses = static_cast<sim::u64>(std::max<long long>(0, s.num("max_pauses", 64)));
     c.start_delay_p = static_cast<double>(s.num("start_delay_permille", 0)) / 1000.0;
     c.start_delay_max_ns = s.num("start_delay_max_us", 2000) * 1000;
     c.max_steps = static_cast<sim::u64>(s.num("max_steps", 400000));
